@@ -297,8 +297,8 @@ theorem rIndex_wf {n : Int} (hn : n < 2147483648) {bs : Bytes} {i : Index} (h : 
           exact rU64_spec h2
         · cases hum
 
-/-- `bam.ReadIndex`: whatever bytes it accepts, the index it returns is well-formed and non-empty -/
-theorem readBai_wf {bs : Bytes} {i : Index} (h : readBai bs = .ok (some i)) : WF i ∧ i.refs ≠ [] := by
+/-- `bam.ReadIndex`: whatever bytes it accepts, the index it returns is well-formed -/
+theorem readBai_wf {bs : Bytes} {i : Index} (h : readBai bs = .ok i) : WF i := by
   unfold readBai at h
   split at h
   · cases h
@@ -308,19 +308,6 @@ theorem readBai_wf {bs : Bytes} {i : Index} (h : readBai bs = .ok (some i)) : WF
     · split at h
       · cases h
       · rename_i n r2 h2
-        split at h
-        · cases h
-        · rename_i hn0
-          split at h
-          · cases h
-          · rename_i i0 h3
-            simp only [Except.ok.injEq, Option.some.injEq] at h
-            subst h
-            obtain ⟨hwf, hl⟩ := rIndex_wf (rI32_spec h2).2 h3
-            refine ⟨hwf, ?_⟩
-            intro he
-            rw [he] at hl
-            simp at hl
-            exact hn0 hl.symm
+        exact (rIndex_wf (rI32_spec h2).2 h).1
 
 end Hts.Model.IndexIO
